@@ -444,3 +444,29 @@ Proof.
     + rewrite Ess. field. repeat split; lra.
   - unfold xs. rewrite (osum_map_scale (V / S) sqrt c). fold S. field. lra.
 Qed.
+
+(* ------------------------------------------------------------------ non-vacuity witnesses *)
+Lemma default_step_count : (100000 - 0) / 2 ^ 30 <= 1 / 10000.
+Proof. cbn [pow]. lra. Qed.
+
+From Coq Require Import PrimFloat.
+(* objective sum c_i / x_i, c = (1, 4, 9), evaluated in binary64 on the states of the variable signals *)
+Definition demo_c : list float := [1; 4; 9]%float.
+Definition demo_obs (it : nat) (st : list (pstate float)) : float * list (pstate float) :=
+  match concatenate_to_array st with
+  | Some (xv, cum) =>
+      (fold_left PrimFloat.add (map (fun q => (fst q / snd q)%float) (combine demo_c xv)) 0%float,
+       write_back (length st) (map (fun q => (- (fst q) / (snd q * snd q))%float) (combine demo_c xv)) cum)
+  | None => (0%float, [])
+  end.
+Definition demo_vars : list (pstate float) := [PScalar 0.5%float; PArray [0.5; 0.5]%float].
+Definition demo_params : @oc_params float :=
+  mkParams (tolx default_params) (tolf default_params) 3 (bmin default_params) (bmax default_params)
+           (move default_params) (l1init default_params) (l2init default_params) (l1l2tol default_params)
+           (warn_eps default_params).
+
+Lemma demo_run :
+  exists t, minimize_oc FloatOOps demo_params demo_obs None 200 demo_vars = Some t /\
+            stop t = StopTolX /\ length (designs t) = 3%nat /\ length (final t) = 3%nat /\
+            warns t = [false; false; false].
+Proof. eexists. split; [vm_compute; reflexivity|]. vm_compute. repeat split; reflexivity. Qed.
